@@ -296,6 +296,9 @@ func (w *World) CutLocked(a, b string, on bool) {
 	w.LogLocked(Event{Kind: "world", Who: "world", Host: b, Class: map[bool]string{true: "cut", false: "uncut"}[on], Arg: a + ">" + b})
 }
 
+// IsCutLocked reports whether the path a -> b was cut by Cut.
+func (w *World) IsCutLocked(a, b string) bool { return w.cut[a+">"+b] }
+
 // ReachLocked reports whether a can reach server b.
 func (w *World) ReachLocked(a, b string) bool {
 	if a == b {
